@@ -96,21 +96,14 @@ Proof.
   exists (mkHeader (Num 10) CLt true M (UAdd (Num 4))), rho52, (-1).
   split; [reflexivity|]. split; [reflexivity|]. split; [reflexivity|]. split; [reflexivity|].
   split; [reflexivity|].
-  unfold values_gpu.
-  assert (Ec : reread (count_tree (mkVariant true true false)
-                         (mkHeader (Num 10) CLt true M (UAdd (Num 4)))) =
-               Some (Bin Div (Paren (Bin Sub (Bin Add (Bin Sub M (Num 10)) (Num 4)) (Num 1))) (Num 4)))
-    by (vm_compute; reflexivity).
-  rewrite Ec.
-  destruct (reread (value_tree (mkHeader (Num 10) CLt true M (UAdd (Num 4))) (Var (-1))));
-    [|discriminate].
-  intro H. injection H as H. apply (f_equal (@length Z)) in H.
-  rewrite map_length, seq_length in H.
-  assert (En : eval rho52 (Bin Div (Paren (Bin Sub (Bin Add (Bin Sub M (Num 10)) (Num 4)) (Num 1)))
-                                   (Num 4)) = -1) by reflexivity.
-  rewrite En in H.
-  pose proof (launch_blocks_negative (mkVariant true true false) (-1) eq_refl) as L.
-  unfold two64 in L. cbn [length] in H. lia.
+  eapply (Proofs.values_gpu_nonempty _ _ _ _
+            (Bin Div (Paren (Bin Sub (Bin Add (Bin Sub M (Num 10)) (Num 4)) (Num 1))) (Num 4))).
+  - vm_compute. reflexivity.
+  - vm_compute. reflexivity.
+  - reflexivity.
+  - assert (En : eval rho52 (Bin Div (Paren (Bin Sub (Bin Add (Bin Sub M (Num 10)) (Num 4)) (Num 1)))
+                                     (Num 4)) = -1) by reflexivity.
+    rewrite En. unfold two64. lia.
 Qed.
 Print Assumptions negative_count_refuted.
 
@@ -120,7 +113,9 @@ Example ex_shift_bound :
   let h := mkHeader (Num 3) CLt true (Bin Shl N (Num 1)) (UAdd (Num 2)) in
   wf_header h = true /\ accepted fixed h = true /\ step_positive rho52 h /\
   values_gpu fixed rho52 h (-1) = Some [3; 5; 7; 9] /\ spec_values rho52 h = Some [3; 5; 7; 9] /\
-  option_map (eval rho52) (reread (count_tree pinned h)) = Some (5 * 2 ^ (1 - 3 + 2 - 1) / 2).
+  (* pinned text `(N << 1 - 3 + 2 - 1) / 2`: a shift by -1 (undefined in C; 1 in Z) *)
+  option_map (eval rho52) (reread (count_tree pinned h)) = Some 1 /\
+  option_map (evalc rho52) (reread (count_tree pinned h)) = Some None.
 Proof. repeat split; reflexivity. Qed.
 
 (* a run-time-empty loop: for (i = 10; M >= i; i++) with M = 2 *)
